@@ -69,7 +69,11 @@ CFG = {
         "locker (interface-keyed and generic, modulo/xxhash, mostly 1031/4099/65537 slots) and, for one never-used slot after "
         "the other, a burst of 2-5 callers released from a spin barrier onto the same never-used key (or two keys of that slot), "
         "observed at quiescence and drained before the next slot (sound under every schedule; whether a first-touch window of a "
-        "few instructions is hit is a matter of chance: about 1 in 100 bursts on this machine); a case is non-trivial when it has at least 6 rounds and at some quiescent point a live "
+        "few instructions is hit is a matter of chance: about 1 in 100 bursts on this machine); a third of the interface-keyed universes (KeyLocker and both KeyLockerGrp routings) hold ONE numeric value under several "
+        "dynamic types (intN/uintN of one width always together; int, uint, uintptr, float32/64, string, named ints, a struct, an "
+        "array, bool for the single locker; only the kinds remap.ToBytes can route for the groups): distinct keys that must not "
+        "block each other and have entries/counts of their own; first-touch schedules are sent as compact pieces (cut where the "
+        "locker is empty, keys renumbered per piece); a case is non-trivial when it has at least 6 rounds and at some quiescent point a live "
         "caller was blocked (had not returned); distinct = distinct Coq case term (actions + observations + labels)"
     ),
     "trusted": [
